@@ -155,11 +155,14 @@ func (c *Ctx) Fatal(caseNo int64) string { return "fatal:" + c.Poison[caseNo] }
 // marked non-exhaustive.
 func (c *Ctx) Expired() bool {
 	// polling the deadline is a sign of life between the executions of one long case
-	c.lastBeat.Store(time.Now().UnixNano())
+	now := time.Now()
+	c.lastBeat.Store(now.UnixNano())
 	if c.expired {
 		return true
 	}
-	if !c.Deadline.IsZero() && c.caseNo&0x3f == 0 && time.Now().After(c.Deadline) {
+	// (the clock is read on every call: a shard that is one long case - a scenario explored under
+	// many map orders - polls here between its executions and must see the deadline too)
+	if !c.Deadline.IsZero() && now.After(c.Deadline) {
 		c.expired = true
 		c.Res.Exhaustive = false
 		c.Note("deadline reached after %d cases", c.caseNo)
